@@ -908,6 +908,8 @@ fn attributes(r: &mut Rd, cx: &Ctx, level: Level, sink: &mut AttrSink, depth: u8
 			(Level::Code, "LineNumberTable") => {
 				let n = r.u16(Role::Count)?;
 				if let AttrSink::Code(c, l) = sink {
+					c.empty_line_table = true; // settled at the end of the Code attribute
+
 					for _ in 0..n {
 						let at = r.pos;
 						let pc = r.u16(Role::Pc)?;
@@ -923,6 +925,8 @@ fn attributes(r: &mut Rd, cx: &Ctx, level: Level, sink: &mut AttrSink, depth: u8
 			(Level::Code, "LocalVariableTable") | (Level::Code, "LocalVariableTypeTable") => {
 				let n = r.u16(Role::Count)?;
 				if let AttrSink::Code(c, l) = sink {
+					c.empty_local_table = true; // settled at the end of the Code attribute
+
 					for _ in 0..n {
 						let at = r.pos;
 						let start_pc = r.u16(Role::Pc)?;
@@ -1421,6 +1425,8 @@ fn code_attribute(r: &mut Rd, cx: &Ctx, depth: u8) -> R<SCode> {
 	code.local_vars.sort();
 	code.local_var_types.sort();
 	code.unknown.sort();
+	code.empty_line_table &= code.line_numbers.is_empty();
+	code.empty_local_table &= code.local_vars.is_empty() && code.local_var_types.is_empty();
 	Ok(code)
 }
 
